@@ -52,7 +52,12 @@ class Toolchain:
         shutil.copy(os.path.join(SIMDIR, "c19_rt.hpp"), os.path.join(root, "src", "c19_rt.hpp"))
 
     def cflags(self, cfg, pic):
-        return ["-std=c++17", "-I" + INCLUDE, "-I" + os.path.join(self.root, "src")] + cfg["opt"] + (["-fPIC"] if pic else [])
+        # clang contracts a*b+c into llvm.fmuladd and constant-folds it as a true fused multiply-add when the operands are
+        # literals, while the same expression on run-time operands is a separate multiply and add on x86-64: a last-bit
+        # difference between a literal-operand object and its run-time twin that has nothing to do with initialisation.
+        # GCC in ISO mode already has -ffp-contract=off; give clang the same so that both arithmetics agree.
+        fp = ["-ffp-contract=off"] if "clang" in cfg["cxx"] else []
+        return ["-std=c++17", "-I" + INCLUDE, "-I" + os.path.join(self.root, "src")] + cfg["opt"] + fp + (["-fPIC"] if pic else [])
 
     def compile(self, src_text, cfg, pic=False):
         key = sha(src_text + "\0" + cfg_name(cfg) + ("\0pic" if pic else ""))[:24]
@@ -1002,7 +1007,7 @@ def api_sweep(seed, thorough, only=None, cfg_filter=None):
     hs = []
     for cxx, opt in cfgs:
         # clang rejects (GCC only warns about) double->float narrowing inside a few library constructors
-        flags = opt + (["-Wno-c++11-narrowing"] if "clang" in cxx else [])
+        flags = opt + (["-Wno-c++11-narrowing", "-ffp-contract=off"] if "clang" in cxx else [])   # see Toolchain.cflags for fp-contract
         hs.append(c20.Harness(os.path.join(root, (cxx + "".join(opt)).replace("+", "p")), flags, only=only, cxx=cxx, ntus=per,
                               label="api", subset=subset, runtime="c19_api_rt.cpp", no_models=("clang" in cxx), inline_twins=True))
         hs[-1].literal_seed = common.run_seed(seed, 31337)
